@@ -30,11 +30,12 @@
 //	    lines, final blank line): delete it, double it, replace it by each byte of an alphabet
 //	    (always including the other byte of the pair), swap the pair, delete the pair; each
 //	    neighbour is continued by a valid message (directly / behind an empty line) and fed in one
-//	    piece, at every single cut and byte-at-a-time (core bases: deletions also at every double
-//	    cut; thorough: nine neighbour kinds at every double cut). It replaces the hand-picked list
-//	    "every structural CRLF minus CR / minus LF over 10 bases", whose space had no witness for
-//	    a parser that stops looking at ONE of these bytes unless the deletion happened to
-//	    leave a stream the broken parser still accepts (single-hex-digit chunk sizes never did).
+//	    piece, at every single cut and byte-at-a-time (core bases: deletions also at the double
+//	    cuts around the change; thorough: three neighbour kinds at every double cut). It replaces
+//	    the hand-picked list "every structural CRLF minus CR / minus LF over 10 bases", whose
+//	    space had no witness for a parser that stops looking at ONE of these bytes unless the
+//	    deletion happened to leave a stream the broken parser still accepts (single-hex-digit
+//	    chunk sizes never did).
 //
 // Oracle: no recover() block logs a panic; every Parse returns (watchdog 30 s); after an error
 // and the engine's reaction (CloseAndClean) further Parse calls return an error and produce no
@@ -538,27 +539,6 @@ func run(tier string, sh *vkit.Shard, p *vkit.Part) {
 				}
 				e.framingItem(fb, eol, thorough)
 			})
-			// every double cut: one item per neighbour kind (they are ~50 times heavier)
-			kinds := doubleCutQuick
-			if thorough {
-				kinds = doubleCutThorough
-			}
-			if fb.core || (thorough && !fb.wide) {
-				for _, k := range kinds {
-					k := k
-					item(func() {
-						if selfOK == 0 {
-							selfOK = -1
-							if e.framingSelfCheck(fb, false) {
-								selfOK = 1
-							}
-						}
-						if selfOK > 0 {
-							e.framingDoubleItem(fb, eol, thorough, map[string]bool{k: true})
-						}
-					})
-				}
-			}
 		}
 	}
 
@@ -654,6 +634,35 @@ func run(tier string, sh *vkit.Shard, p *vkit.Part) {
 			}
 		}
 	}
+	// (d2) every double cut, last (the widest product): one item per neighbour kind and CRLF
+	for _, fb := range framingBases(thorough) {
+		fb := fb
+		kinds := doubleCutQuick
+		if thorough {
+			kinds = doubleCutThorough
+		}
+		if !fb.core && !(thorough && !fb.wide) {
+			continue
+		}
+		selfOK := 0
+		for _, eol := range fb.m.EOLs {
+			eol := eol
+			for _, k := range kinds {
+				k := k
+				item(func() {
+					if selfOK == 0 {
+						selfOK = -1
+						if e.framingSelfCheck(fb, false) {
+							selfOK = 1
+						}
+					}
+					if selfOK > 0 {
+						e.framingDoubleItem(fb, eol, thorough, map[string]bool{k: true})
+					}
+				})
+			}
+		}
+	}
 	if skipped > 0 {
 		p.Incompletef("wall-clock cap reached: %d work items of this shard were not enumerated", skipped)
 	}
@@ -718,7 +727,7 @@ func replay(_ string, raw json.RawMessage) string {
 func main() {
 	vkit.Main(&vkit.Spec{
 		Property: "C08", Level: "model_checking",
-		Rule: "one case = (byte stream, segmentation, processor, ReadLimit, MaxHTTPBodySize) executed on the real nbhttp.Parser; (a) all strings of length <= 4 (thorough 6) over 12 symbols after each of 11 parser-parking prefixes x {one piece, prefix+suffix, suffix byte-at-a-time}; (b) all distinct single-byte mutants of 20 base messages x {one piece, every single cut, byte-at-a-time; thorough: every double cut with the real processors}; (c) 3x3 limit configurations x 82 messages straddling 16/64 (tokens) and 4/64 (bodies) x {one piece, every single cut, pieces of 1,7,limit-1,limit,limit+1}; (d) malformed framing list (content-length, transfer-encoding, chunk-size forms, each continued by a valid message) x {one piece, every single cut, every double cut, byte-at-a-time}; (d2) every framing CR and LF (positions recorded by the generator: start line, header lines, header-block end, chunk-size lines, chunk-data terminators, last-chunk line, trailer lines, final blank line) of every base of the framing grammar (counter d2.bases; requests and responses; bodiless, Content-Length, chunked x chunk lists x extensions x trailers; header and start-line variants; pipelines) x {deleted, doubled, replaced by CR/LF/SP/X/HT/NUL/0/: (thorough: 17 bytes), pair swapped, pair deleted} x continuation {valid message, empty line + valid message (thorough: LF + valid message)} x {one piece, every single cut, byte-at-a-time with the real processor; one piece, 4 cuts around the change, byte-at-a-time with the recording processor; every double cut for the deletions on 12 core bases (thorough: 9 kinds on every base of the quick product)}, judged only where the strict recogniser finds a CR/LF framing error; a case is non-trivial when it ended in an error (the after-error clause is exercised by further Parse calls) or a feed left a non-empty carry-over buffer; every case of (c) is non-trivial by construction",
+		Rule: "one case = (byte stream, segmentation, processor, ReadLimit, MaxHTTPBodySize) executed on the real nbhttp.Parser; (a) all strings of length <= 4 (thorough 6) over 12 symbols after each of 11 parser-parking prefixes x {one piece, prefix+suffix, suffix byte-at-a-time}; (b) all distinct single-byte mutants of 20 base messages x {one piece, every single cut, byte-at-a-time; thorough: every double cut with the real processors}; (c) 3x3 limit configurations x 82 messages straddling 16/64 (tokens) and 4/64 (bodies) x {one piece, every single cut, pieces of 1,7,limit-1,limit,limit+1}; (d) malformed framing list (content-length, transfer-encoding, chunk-size forms, each continued by a valid message) x {one piece, every single cut, every double cut, byte-at-a-time}; (d2) every framing CR and LF (positions recorded by the generator: start line, header lines, header-block end, chunk-size lines, chunk-data terminators, last-chunk line, trailer lines, final blank line) of every base of the framing grammar (counter d2.bases; requests and responses; bodiless, Content-Length, chunked x chunk lists x extensions x trailers; header and start-line variants; pipelines) x {deleted, doubled, replaced by CR/LF/SP/X/HT/0/: (thorough: 13 bytes), pair swapped, pair deleted} x continuation {valid message, empty line + valid message (thorough: LF + valid message)} x {one piece, every single cut, byte-at-a-time with the real processor; one piece, 4 cuts around the change, byte-at-a-time with the recording processor; double cuts with one cut within 3 bytes of the change for the deletions on 12 core bases (thorough: every double cut for 3 kinds on every base of the quick product)}, judged only where the strict recogniser finds a CR/LF framing error; a case is non-trivial when it ended in an error (the after-error clause is exercised by further Parse calls) or a feed left a non-empty carry-over buffer; every case of (c) is non-trivial by construction",
 		Assumptions: []string{
 			"a panic is detected through nbio's logging (recover() blocks log at error level); a hang is a Parse call that does not return within 30 s",
 			"after an error the harness calls CloseAndClean (what Engine.DataHandler's CloseWithError leads to) and then keeps feeding the rest of the stream and one valid message: every such call must return an error and no callback may fire",
